@@ -3,6 +3,7 @@ import ast
 from typing import Dict, List, Optional, Set, Tuple
 
 from ..model import AnalysisError, Program, walk_function, parent
+from .. import guards as G
 from ..guards import norm, call_name, const_str, isinstance_atom, known_instance, tag_equalities, card_truth, name_subject
 from ..facts import Fn, CORE, MUTATORS, assigned_from, enclosing_loops, whole_collection_loop, enclosing_stmt
 from ..cfg import conj_atoms
@@ -13,6 +14,16 @@ NODE = 'yatiml.helpers:Node.'
 UNK = 'yatiml.helpers:UnknownNode.'
 TRUE_WORDS = {'true', 'True', 'TRUE'}
 FALSE_WORDS = {'false', 'False', 'FALSE'}
+
+
+def _reaching_texts(f: Fn, e: ast.AST) -> Set[str]:
+    """texts of the definitions of local `e` that reach its use (the expression itself when it is not a local name)"""
+    if isinstance(e, ast.Name):
+        from ..facts import reaching_defs
+        ds = reaching_defs(f, e, e.id)
+        if ds:
+            return {norm(d.value) for d in ds}
+    return {norm(e)}
 
 
 def _tag_arms(f: Fn, subject: str) -> List[Tuple[str, ast.AST]]:
@@ -117,7 +128,7 @@ def r14_1_scalar_table(ctx):
     r.check(okstore and allpaths, 'every exit of set_value has replaced self.yaml_node by the new ScalarNode', v.key('replaces-node'), v.loc(),
             'set_value can return without installing a node with the new tag and text (e.g. when the text is unchanged the tag '
             'of the old node stays): set_value(v); is_scalar(type(v)) / get_value() == v no longer hold')
-    btxt = [norm(n.value) for n in v.walk() if isinstance(n, ast.Assign) and norm(n.targets[0]) == 'value_str']
+    btxt = [norm(x) for n in news if len(n.args) > 1 for x in S._flow_sources(v, n.args[1])]
     r.check("'true' if %s else 'false'" % vp in btxt and 'str(%s)' % vp in btxt, 'set_value text: true/false for bool, str(value) otherwise',
             v.key('text'), v.loc(), 'set_value writes %s' % btxt)
     bn = [n for n in v.walk() if isinstance(n, ast.Assign) and norm(n.value) == "'true' if %s else 'false'" % vp]
@@ -179,7 +190,7 @@ def r14_3_positions(ctx):
         st = [n for n in s.walk() if isinstance(n, ast.Assign) and isinstance(n.targets[0], ast.Subscript)
               and norm(n.targets[0].value) == 'self.yaml_node.value']
         r.check(all(isinstance(n.value, ast.Tuple) and len(n.value.elts) == 2
-                    and s.copies.xnorm(n.value.elts[0]) in ('self.yaml_node.value[%s][0]' % iv, 'key_node') for n in st) and bool(st),
+                    and _reaching_texts(s, n.value.elts[0]) == {'self.yaml_node.value[%s][0]' % iv} for n in st) and bool(st),
                 'the existing key node is kept', s.key('keeps-key-node'), s.loc(), 'set_attribute replaces the key node of an existing key')
     rm = fn(P, NODE + 'remove_attribute')
     muts = [n for n in rm.walk() if isinstance(n, ast.Call) and isinstance(n.func, ast.Attribute) and n.func.attr in MUTATORS
@@ -298,10 +309,11 @@ def r14_4_matches_total(ctx, rid='R14.4'):
         if isinstance(n.value, ast.ListComp) and len(n.value.generators) == 1 and norm(n.value.generators[0].iter) == 'self.yaml_node.value':
             g = n.value.generators[0]
             kn, vv = (norm(x) for x in g.target.elts) if isinstance(g.target, ast.Tuple) else (None, None)
-            cond = [norm(x) for x in g.ifs]
-            ok = norm(n.value.elt) == '(%s, %s)' % (kn, vv) and cond == [
-                '%s.value not in defaults or not matches(%s, defaults[%s.value])' % (kn, vv, kn)] \
-                and outer.copies.xnorm(ast.parse('defaults').body[0].value) == 'defaulted_attributes(%s)' % outer.fi.params[1]
+            cond = [outer.alpha.text(x) for x in g.ifs]
+            D = 'defaulted_attributes(%s)' % outer.fi.params[1]
+            K, V = '<each:self.yaml_node.value>[0]', '<each:self.yaml_node.value>[1]'
+            ok = kn is not None and outer.alpha.text(n.value.elt) == '(%s, %s)' % (K, V) and cond == [
+                '%s.value not in %s or not matches(%s, %s[%s.value])' % (K, D, V, D, K)]
     r.check(ok, 'pairs are kept, in order, unless the key is defaulted and matches(value, default)', outer.key('filter'), outer.loc(),
             'remove_attributes_with_default_values does not keep exactly the pairs whose value differs from the default')
     r.done()
@@ -363,7 +375,7 @@ def r14_6_get_attribute_guarded(ctx, rid='R14.6', transforms=False):
                     neg = S.branch_nodes(f, lambda a: S.atom_is(a, '%s.has_attribute(%s)' % (recv, name), True))
                     ok = bool(neg) and f.cfg.must_pass(f.cfg.entry, f.nid(c), neg)
                 r.check(ok, '%s: %s.get_attribute(%s) under has_attribute' % (fi.qual, recv, name),
-                        '%s:unguarded-get_attribute:%s.get_attribute(%s)' % (fi.key, recv, name), fi.loc(c),
+                        '%s:unguarded-get_attribute:%s.get_attribute(%s)' % (fi.key, f.alpha.text(c.func.value), name), fi.loc(c),
                         '%s.get_attribute(%s) is reached without %s.has_attribute(%s): a missing (or repeated) key raises '
                         'SeasoningError out of %s' % (recv, name, recv, name, fi.qual))
     r.done()
@@ -488,7 +500,7 @@ def r15_1_typestate(ctx, rid='R15.1', scope='helpers'):
                     continue
                 ok = kind_known(f, c, recv, ts[c.func.attr])
                 r.check(ok, '%s: %s.%s() on a known %s' % (fi.qual, recv, c.func.attr, ts[c.func.attr]),
-                        '%s:typestate:%s.%s' % (fi.key, recv, c.func.attr), fi.loc(c),
+                        '%s:typestate:%s.%s' % (fi.key, f.alpha.text(c.func.value), c.func.attr), fi.loc(c),
                         '%s.%s() is called although %s is not known to wrap a %s node: for a scalar the pair-unpacking loop raises '
                         'ValueError (iterating over characters)' % (recv, c.func.attr, recv, ts[c.func.attr]))
     r.done()
@@ -496,7 +508,7 @@ def r15_1_typestate(ctx, rid='R15.1', scope='helpers'):
 
 def exit_id(f: Fn, x: ast.AST) -> str:
     """stable name of an exit: its kind, exception class, and innermost guard"""
-    gt = f.guard_texts(x)
+    gt = [('' if p else 'not ') + t for t, p in (f.alpha.atom(g, p) for g, p in f.guards(x))]
     what = 'return' if isinstance(x, ast.Return) else 'raise %s' % S.raise_class(x)
     return '%s@%s' % (what, gt[-1] if gt else 'entry')
 
@@ -555,8 +567,15 @@ def r15_3_mirror(ctx):
 
 
 def _inloop_atoms(f: Fn, n: ast.AST, loop: ast.AST) -> Set[Tuple[str, bool]]:
-    return {(norm(b.ast), b.pol) for b in f.cfg.guard_nodes(f.nid(n))
+    """canonical, alpha-renamed guard atoms (inside `loop`) under which `n` is evaluated"""
+    return {f.alpha.atom(b.ast, b.pol) for b in f.cfg.guard_nodes(f.nid(n))
             if any(x is loop for x in S._ancestors_list(b.ast)) and not isinstance(b.ast, ast.BoolOp)}
+
+
+def _pair_loop(f: Fn) -> Optional[ast.For]:
+    los = [n for n in f.walk() if isinstance(n, ast.For) and isinstance(n.target, ast.Tuple) and len(n.target.elts) == 2
+           and f.alpha.text(n.iter).endswith('yaml_node.value')]
+    return los[0] if los else None
 
 
 def r15_5_decisions(ctx):
@@ -565,13 +584,15 @@ def r15_5_decisions(ctx):
                           'attribute is given; short form only when the value attribute is the sole remaining key)', floor=4)
     # map_attribute_to_index: wrap
     f = fn(P, NODE + 'map_attribute_to_index')
-    lo = [n for n in f.walk() if isinstance(n, ast.For) and 'yaml_node.value' in norm(n.iter)][0]
-    kv, vv = (norm(x) for x in lo.target.elts)
+    lo = _pair_loop(f)
+    if lo is None:
+        raise AnalysisError('anchor missing: pair loop over the attribute mapping in map_attribute_to_index')
+    kv, vv = (f.alpha.text(x) for x in lo.target.elts)
     va = f.fi.params[3]
     wraps = [n for n in ast.walk(lo) if isinstance(n, ast.Call) and norm(n.func) in ('yaml.MappingNode', 'MappingNode')]
     for w in wraps:
         at = _inloop_atoms(f, w, lo)
-        exp = {('isinstance(%s, yaml.MappingNode)' % vv, False), ('%s is not None' % va, True)}
+        exp = {('isinstance(%s, yaml.MappingNode)' % vv, False), ('%s is None' % va, False)}
         r.check(at == exp, 'map_attribute_to_index wraps exactly when the value is not a mapping and a value attribute is given',
                 f.key('wrap-condition'), f.loc(w), 'map_attribute_to_index wraps a value under %s (documented: any value that is not '
                 'a mapping, when value_attribute is given - lists included)' % sorted(at))
@@ -586,11 +607,13 @@ def r15_5_decisions(ctx):
                 'the key attribute is added under %s' % sorted(at))
     # index_attribute_to_map: short form
     f = fn(P, NODE + 'index_attribute_to_map')
-    lo = [n for n in f.walk() if isinstance(n, ast.For) and 'yaml_node.value' in norm(n.iter)][0]
-    kv, vv = (norm(x) for x in lo.target.elts)
+    lo = _pair_loop(f)
+    if lo is None:
+        raise AnalysisError('anchor missing: pair loop over the attribute mapping in index_attribute_to_map')
+    kv, vv = (f.alpha.text(x) for x in lo.target.elts)
     va, ka = f.fi.params[3], f.fi.params[2]
     short = [n for n in ast.walk(lo) if isinstance(n, ast.Call) and isinstance(n.func, ast.Attribute) and n.func.attr == 'append'
-             and n.args and isinstance(n.args[0], ast.Tuple) and norm(n.args[0].elts[1]) == '%s.value[0][1]' % vv]
+             and n.args and isinstance(n.args[0], ast.Tuple) and f.alpha.text(n.args[0].elts[1]) == '%s.value[0][1]' % vv]
     for a in short:
         at = {x for x in _inloop_atoms(f, a, lo) if 'isinstance' not in x[0]}
         exp = {('len(%s.value) == 1' % vv, True), ('%s.value[0][0].value == %s' % (vv, va), True)}
@@ -599,21 +622,28 @@ def r15_5_decisions(ctx):
                 'remaining key is NOT the value attribute is collapsed and cannot be expanded again' % sorted(at))
     if not short:
         r.fail(f.key('no-short-form'), f.loc(), 'index_attribute_to_map never produces the short form')
-    filt = [n for n in ast.walk(lo) if isinstance(n, ast.Assign) and norm(n.targets[0]) == '%s.value' % vv and isinstance(n.value, ast.ListComp)]
-    r.check(len(filt) == 1 and [norm(c) for c in filt[0].value.generators[0].ifs] == ['%s.value != %s' % (
-        norm(filt[0].value.generators[0].target.elts[0]), ka)], 'the key attribute (and only it) is filtered out of each entry',
-        f.key('key-filter'), f.loc(), 'index_attribute_to_map does not remove exactly the key attribute from each entry')
+    filt = [n for n in ast.walk(lo) if isinstance(n, ast.Assign) and f.alpha.text(n.targets[0]) == '%s.value' % vv
+            and isinstance(n.value, ast.ListComp)]
+    okf = False
+    if len(filt) == 1:
+        g = filt[0].value.generators[0]
+        if isinstance(g.target, ast.Tuple) and len(g.ifs) == 1 and f.alpha.text(g.iter) == '%s.value' % vv:
+            okf = G.canon_atom(g.ifs[0]) == ('%s.value == %s' % (norm(g.target.elts[0]), ka), False) \
+                and norm(filt[0].value.elt) in (norm(g.target), '(%s)' % norm(g.target))
+    r.check(okf, 'the key attribute (and only it) is filtered out of each entry',
+            f.key('key-filter'), f.loc(), 'index_attribute_to_map does not remove exactly the key attribute from each entry')
     # seq_attribute_to_map: short form
     f = fn(P, NODE + 'seq_attribute_to_map')
-    va = f.fi.params[3]
+    ka, va = f.fi.params[2], f.fi.params[3]
     apps = [n for n in f.walk() if isinstance(n, ast.Call) and isinstance(n.func, ast.Attribute) and n.func.attr == 'append'
-            and n.args and isinstance(n.args[0], ast.Tuple)]
-    shorts = [a for a in apps if norm(a.args[0].elts[1]) == 'value_node']
-    longs = [a for a in apps if norm(a.args[0].elts[1]) == 'item.yaml_node']
+            and n.args and isinstance(n.args[0], ast.Tuple) and len(n.args[0].elts) == 2]
     lo2 = [l for l in S.enclosing_loops(apps[0], f.node) if isinstance(l, ast.For)][0] if apps else None
+    it = f.alpha.text(lo2.target) if lo2 is not None else '?'
+    shorts = [a for a in apps if f.alpha.text(a.args[0].elts[1]) == '%s.get_attribute(%s).yaml_node' % (it, va)]
+    longs = [a for a in apps if f.alpha.text(a.args[0].elts[1]) == '%s.yaml_node' % it]
     for a in shorts:
         at = _inloop_atoms(f, a, lo2)
-        exp = {('%s is not None' % va, True), ('len(item.yaml_node.value) == 1', True)}
+        exp = {('%s is None' % va, False), ('len(%s.yaml_node.value) == 1' % it, True)}
         r.check(at == exp, 'seq_attribute_to_map: short form exactly when a value attribute is given and it is the only other key',
                 f.key('short-form-condition'), f.loc(a), 'seq_attribute_to_map uses the short form under %s' % sorted(at))
     r.check(bool(shorts) and bool(longs), 'seq_attribute_to_map has a short and a long form', f.key('forms'), f.loc(),
@@ -626,6 +656,7 @@ def r15_5_decisions(ctx):
         lo3 = [l for l in S.enclosing_loops(c, f.node) if isinstance(l, ast.For)][0]
         at = _inloop_atoms(f, c, lo3)
         recv = norm(c.func.value)
+        recv = f.alpha.text(c.func.value)
         exp = {('%s.is_mapping()' % recv, False), ('%s is None' % va, False)}
         r.check(at == exp, 'map_attribute_to_seq wraps exactly a non-mapping value when a value attribute is given', f.key('wrap-condition'),
                 f.loc(c), 'map_attribute_to_seq wraps under %s' % sorted(at))
@@ -681,30 +712,30 @@ def r16_3_decisions(ctx):
         f = fn(P, UNK + name)
         rs = f.raises()
         ok = len(rs) == 1 and S.raise_class(rs[0]) == 'RecognitionError' and \
-            [(norm(g), p) for g, p in f.guards(rs[0])] == [('isinstance(self.yaml_node, yaml.%s)' % cls_, False)]
+            {f.alpha.atom(g, p) for g, p in f.guards(rs[0])} == {('isinstance(self.yaml_node, yaml.%s)' % cls_, False)}
         r.check(ok, '%s raises RecognitionError iff the node is not a %s' % (name, cls_), f.key('decision'), f.loc(),
                 '%s does not raise exactly when the node is not a %s' % (name, cls_))
     # require_scalar
     f = fn(P, UNK + 'require_scalar')
     ap = f.fi.params[1]
-    wraps = [norm(x) for x in assigned_from(f, 'node')]
-    r.check('Node(self.yaml_node)' in wraps, 'require_scalar inspects Node(self.yaml_node)', f.key('wrapped-node'), f.loc(),
+    W = 'Node(self.yaml_node)'
+    recvs = {f.alpha.text(c.func.value) for c in f.calls('is_scalar') if isinstance(c.func, ast.Attribute)}
+    r.check(recvs == {W}, 'require_scalar inspects Node(self.yaml_node)', f.key('wrapped-node'), f.loc(),
             'require_scalar does not look at this node')
     for rs in f.raises():
-        gt = [(norm(g), p) for g, p in f.guards(rs)]
-        none_given = ('len(%s) == 0' % ap, True) in gt or ('%s' % ap, False) in gt
+        gt = {f.alpha.atom(g, p) for g, p in f.guards(rs)}
+        none_given = (ap, False) in gt
         if none_given:
-            r.check(('node.is_scalar()', False) in gt and S.raise_class(rs) == 'RecognitionError', 'require_scalar(): raises iff not '
-                    'node.is_scalar()', f.key('untyped'), f.loc(rs), 'require_scalar() raises under %s' % gt)
+            r.check(('%s.is_scalar()' % W, False) in gt and S.raise_class(rs) == 'RecognitionError', 'require_scalar(): raises iff not '
+                    'node.is_scalar()', f.key('untyped'), f.loc(rs), 'require_scalar() raises under %s' % sorted(gt))
         else:
             # after a whole loop over the types in which a match returns
             loops = [n for n in f.walk() if isinstance(n, ast.For) and norm(n.iter) == ap]
             ok = False
             for lo in loops:
-                tv = norm(lo.target)
+                tv = f.alpha.text(lo.target)
                 rets = [x for st in lo.body for x in ast.walk(st) if isinstance(x, ast.Return)]
-                ok = bool(rets) and all({(norm(b.ast), b.pol) for b in f.cfg.guard_nodes(f.nid(x)) if any(y is lo for y in S._ancestors_list(b.ast))}
-                                        == {('node.is_scalar(%s)' % tv, True)} for x in rets) \
+                ok = bool(rets) and all(_inloop_atoms(f, x, lo) == {('%s.is_scalar(%s)' % (W, tv), True)} for x in rets) \
                     and f.cfg.dominates(f.nid(lo.iter), f.nid(rs)) and not S.breaks_of(lo, f.node) \
                     and not S.enclosing_loops(rs, f.node)
             r.check(ok and S.raise_class(rs) == 'RecognitionError', 'require_scalar(types): returns iff node.is_scalar(t) for some t '
@@ -737,7 +768,7 @@ def r16_3_decisions(ctx):
             st = enclosing_stmt(c)
             a0 = f.copies.expand(c.args[0], 1) if c.args else None
             if isinstance(st, ast.Assign) and isinstance(st.targets[0], ast.Tuple) and a0 is not None and norm(a0) == '%s[0]' % lst \
-                    and norm(c.func.value) == 'self.__recognizer' and f.has_guard(c, '%s != _Any' % tp, True, expand=False):
+                    and norm(c.func.value) == 'self.__recognizer' and ('%s == _Any' % tp, False) in {G.canon_atom(g, p) for g, p in f.guards(c)}:
                 vv = norm(st.targets[0].elts[0])
                 rs = [x for x in f.raises() if f.card(x, vv) == {0}]
                 others = [x for x in f.raises() if x not in rs and x not in miss]
@@ -754,41 +785,47 @@ def r16_3_decisions(ctx):
             r.fail(f.key('pair-loop'), f.loc(), '%s does not scan the pairs once' % name)
             continue
         lo = loops[0]
-        kn, vn = (norm(x) for x in lo.target.elts)
+        kn, vn = (f.alpha.text(x) for x in lo.target.elts)
         keyatoms = {("%s.tag == 'tag:yaml.org,2002:str'" % kn, True), ('%s.value == %s' % (kn, at), True)}
+        W = 'Node(%s)' % vn
+        ts = '%s.is_scalar(type(%s))' % (W, vp)
         gv = [c for st in lo.body for c in ast.walk(st) if isinstance(c, ast.Call) and isinstance(c.func, ast.Attribute) and c.func.attr == 'get_value']
         ok_ts = bool(gv)
-        wn = None
         for c in gv:
-            wn = norm(c.func.value)
-            wr = [norm(x) for x in assigned_from(f, wn)]
-            if 'Node(%s)' % vn not in wr or not (f.has_guard(c, '%s.is_scalar(type(%s))' % (wn, vp), True, expand=False)):
+            if f.alpha.text(c.func.value) != W or (ts, True) not in {f.alpha.atom(g, p) for g, p in f.guards(c)}:
                 ok_ts = False
         r.check(ok_ts, '%s: get_value() only after is_scalar(type(value)) on Node(value node)' % name, f.key('typestate'), f.loc(),
                 '%s compares the value without first establishing that the node is a scalar of the value\'s type: bool/int/float '
                 'cross-type equality leaks in (true == 1), and get_value() raises on other tags' % name)
-        found_set = [n for st in lo.body for n in ast.walk(st) if isinstance(n, ast.Assign) and norm(n.targets[0]) == 'found']
-        r.check(bool(found_set) and all(_inloop_atoms(f, n, lo) == keyatoms and norm(n.value) == 'True' for n in found_set),
-                '%s: found is set exactly for a str-tagged key equal to the attribute' % name, f.key('found'), f.loc(),
-                '%s marks the attribute as found under another condition' % name)
         inl = [x for x in f.raises() if any(y is lo for y in S._ancestors_list(x))]
         outl = [x for x in f.raises() if x not in inl]
         rets = [x for st in lo.body for x in ast.walk(st) if isinstance(x, ast.Return)]
-        if wn is not None:
-            ts = ('%s.is_scalar(type(%s))' % (wn, vp))
-            if not neg:
-                exp = [keyatoms | {(ts, False)}, keyatoms | {(ts, True), ('%s.get_value() != %s' % (wn, vp), True)}]
-                got = [_inloop_atoms(f, x, lo) for x in inl]
-                r.check(sorted(map(sorted, got)) == sorted(map(sorted, exp)) and not rets, '%s raises for a wrong type and for a '
-                        'different value' % name, f.key('decision'), f.loc(), '%s raises under %s' % (name, [sorted(g) for g in got]))
-            else:
-                exp = [keyatoms | {(ts, True), ('%s.get_value() == %s' % (wn, vp), True)}]
-                got = [_inloop_atoms(f, x, lo) for x in inl]
-                rgot = [_inloop_atoms(f, x, lo) for x in rets]
-                r.check(sorted(map(sorted, got)) == sorted(map(sorted, exp)) and rgot == [keyatoms | {(ts, False)}],
-                        '%s raises for an equal value of the same type, accepts another type' % name, f.key('decision'), f.loc(),
-                        '%s raises under %s / returns under %s' % (name, [sorted(g) for g in got], [sorted(g) for g in rgot]))
-        r.check(len(outl) == 1 and f.has_guard(outl[0], 'found', False, expand=False) and S.raise_class(outl[0]) == 'RecognitionError'
+        # the flag: the local whose falsity guards the raise after the scan
+        flag = None
+        if len(outl) == 1:
+            fl = [t for t, p in {f.alpha.atom(g, p) for g, p in f.guards(outl[0])} if not p and t.startswith('<var:')]
+            flag = fl[0] if len(fl) == 1 else None
+        found_set = [n for st in lo.body for n in ast.walk(st) if isinstance(n, ast.Assign) and flag is not None
+                     and f.alpha.text(n.targets[0]) == flag]
+        inits = [n for n in f.walk() if isinstance(n, ast.Assign) and flag is not None and f.alpha.text(n.targets[0]) == flag
+                 and n not in found_set]
+        r.check(bool(found_set) and all(_inloop_atoms(f, n, lo) == keyatoms and norm(n.value) == 'True' for n in found_set)
+                and len(inits) == 1 and norm(inits[0].value) == 'False' and not S.enclosing_loops(inits[0], f.node),
+                '%s: found is set exactly for a str-tagged key equal to the attribute' % name, f.key('found'), f.loc(),
+                '%s marks the attribute as found under another condition' % name)
+        if not neg:
+            exp = [keyatoms | {(ts, False)}, keyatoms | {(ts, True), ('%s.get_value() == %s' % (W, vp), False)}]
+            got = [_inloop_atoms(f, x, lo) for x in inl]
+            r.check(sorted(map(sorted, got)) == sorted(map(sorted, exp)) and not rets, '%s raises for a wrong type and for a '
+                    'different value' % name, f.key('decision'), f.loc(), '%s raises under %s' % (name, [sorted(g) for g in got]))
+        else:
+            exp = [keyatoms | {(ts, True), ('%s.get_value() == %s' % (W, vp), True)}]
+            got = [_inloop_atoms(f, x, lo) for x in inl]
+            rgot = [_inloop_atoms(f, x, lo) for x in rets]
+            r.check(sorted(map(sorted, got)) == sorted(map(sorted, exp)) and rgot == [keyatoms | {(ts, False)}],
+                    '%s raises for an equal value of the same type, accepts another type' % name, f.key('decision'), f.loc(),
+                    '%s raises under %s / returns under %s' % (name, [sorted(g) for g in got], [sorted(g) for g in rgot]))
+        r.check(len(outl) == 1 and flag is not None and S.raise_class(outl[0]) == 'RecognitionError'
                 and f.cfg.dominates(f.nid(lo.iter), f.nid(outl[0])), '%s raises after the scan iff the key was not found' % name,
                 f.key('not-found'), f.loc(), '%s does not raise exactly when the key is absent' % name)
         for x in f.raises():
@@ -814,7 +851,7 @@ def r14_10_get_value_typestate(ctx, rid='R14.10'):
                 pos = S.branch_nodes(f, lambda a: any(p and isinstance(g, ast.Call) and call_name(g) == 'is_scalar' and g.args
                                                       and norm(g.func.value) == recv for g, p in a))
                 ok = bool(pos) and f.cfg.must_pass(f.cfg.entry, f.nid(c), pos)
-                r.check(ok, '%s: %s.get_value() after %s.is_scalar(T)' % (fi.qual, recv, recv), '%s:get_value-typestate:%s' % (fi.key, recv),
+                r.check(ok, '%s: %s.get_value() after %s.is_scalar(T)' % (fi.qual, recv, recv), '%s:get_value-typestate:%s' % (fi.key, f.alpha.text(c.func.value)),
                         fi.loc(c), '%s.get_value() is reached without %s.is_scalar(<type>) having been established: for an int/float/'
                         'timestamp/collection node it raises ValueError/RuntimeError instead of the documented error' % (recv, recv))
     r.done()
